@@ -6,9 +6,46 @@
    Since fix 6b15ed7 regex.c's uc_len / uc_dec stop at the terminator of a truncated multi-byte sequence: the
    theorems below need NO hypothesis about complete sequences. *)
 From Coq Require Import List ZArith NArith Bool Lia.
-From NV Require Import Bytes UcDefs GenConsts ReSyntax ReParse ReVM CLite CLiteProps GenCFuncs TrUc.
+From NV Require Import Bytes GenConsts ReSyntax ReParse ReVM CLite CLiteProps GenCFuncs CLiteTac.
 Import ListNotations.
 Local Open Scope Z_scope.
+
+(* regex.c has private copies of the UTF-8 helpers: nothing here depends on the theorems about uc.c (TrUc*.v); the
+   facts about one byte (decided by trying the 256 values) are restated here *)
+Lemma cc_c0 : forall c, (c < 256)%N ->
+  negb (Z.land (Z.lnot (Z.of_N c)) 192 =? 0) = negb (bit c 128 && bit c 64).
+Proof. byte_fact. Qed.
+Lemma cc_20 : forall c, (c < 256)%N -> negb (Z.land (Z.lnot (Z.of_N c)) 32 =? 0) = negb (bit c 32).
+Proof. byte_fact. Qed.
+Lemma cc_10 : forall c, (c < 256)%N -> negb (Z.land (Z.lnot (Z.of_N c)) 16 =? 0) = negb (bit c 16).
+Proof. byte_fact. Qed.
+Lemma cc_08 : forall c, (c < 256)%N -> negb (Z.land (Z.lnot (Z.of_N c)) 8 =? 0) = negb (bit c 8).
+Proof. byte_fact. Qed.
+Lemma sh_1f_6 : forall c, (c < 256)%N ->
+  shl32 (Z.land (Z.of_N c) 31) 6 = Ok (Z.of_N (N.shiftl (N.land c 31) 6)).
+Proof. byte_fact. Qed.
+Lemma sh_0f_12 : forall c, (c < 256)%N ->
+  shl32 (Z.land (Z.of_N c) 15) 12 = Ok (Z.of_N (N.shiftl (N.land c 15) 12)).
+Proof. byte_fact. Qed.
+Lemma sh_07_18 : forall c, (c < 256)%N ->
+  shl32 (Z.land (Z.of_N c) 7) 18 = Ok (Z.of_N (N.shiftl (N.land c 7) 18)).
+Proof. byte_fact. Qed.
+Lemma sx_3f : forall c, (c < 256)%N -> Z.land (wrap I32 (wrap I8 (Z.of_N c))) 63 = Z.of_N (N.land c 63).
+Proof. byte_fact. Qed.
+Lemma sh_3f_6 : forall c, (c < 256)%N ->
+  shl32 (Z.of_N (N.land c 63)) 6 = Ok (Z.of_N (N.shiftl (N.land c 63) 6)).
+Proof. byte_fact. Qed.
+Lemma sh_3f_12 : forall c, (c < 256)%N ->
+  shl32 (Z.of_N (N.land c 63)) 12 = Ok (Z.of_N (N.shiftl (N.land c 63) 12)).
+Proof. byte_fact. Qed.
+Lemma cc_z0 : forall c, (c < 256)%N -> (wrap I8 (Z.of_N c) =? 0) = (c =? 0)%N.
+Proof. byte_fact. Qed.
+Lemma nonul_nthb_nz s p : nonul s -> (p < length s)%nat -> (nthb s p =? 0)%N = false.
+Proof.
+  intros H Hp. unfold nonul in H. rewrite Forall_forall in H.
+  assert (byte_ok (nthb s p)) as [Hb _] by (apply H; unfold nthb; apply nth_In; exact Hp).
+  apply N.eqb_neq. lia.
+Qed.
 
 (* ------------------------------------------------------------------ uc_len (regex.c) *)
 Lemma cc_gt0 : forall c, (c < 256)%N -> (0 <? Z.of_N c) = negb (c =? 0)%N.
